@@ -1,7 +1,127 @@
-//! C15 (to be filled in)
+//! C15 — reflink modes keep their contract
+
 use super::*;
-pub fn run(_ctx: &Ctx) -> Report {
-    let mut r = Report::new("model_checking", "not implemented");
-    r.machinery_errors.push("C15 not implemented yet".into());
-    r
+use crate::explore::{explore, Judge};
+use crate::scen::Entry;
+use crate::sup::{Action, Fault};
+use std::sync::Arc;
+
+fn unsupported(errno: i64) -> bool {
+    [libc::EOPNOTSUPP as i64, libc::EINVAL as i64, libc::EXDEV as i64].contains(&errno)
+}
+
+pub fn judge(w: &Worker, scen: &Scenario, ex: &Exec) -> Judgement {
+    let exp = model::expect(scen);
+    let mode = exp.opts.reflink.clone();
+    let mut v = vec![];
+    // FICLONE calls in trace order: (destination, answer)
+    let clones: Vec<(String, i64, usize)> = ex.res.events.iter().enumerate().filter(|(_, e)| e.name == "ioctl:FICLONE").map(|(i, e)| (e.rel2.clone().unwrap_or_default(), e.ret, i)).collect();
+    let data_moves = |dest: &str| -> Vec<usize> { ex.res.events.iter().enumerate().filter(|(_, e)| e.is_data_move() && e.write_target().map(|t| t.1 == dest).unwrap_or(false)).map(|(i, _)| i).collect() };
+    let files = c18::copied_files(&exp);
+    match mode.as_str() {
+        "never" => {
+            if !clones.is_empty() {
+                v.push(format!("--reflink=never but a clone request was issued for {}", clones[0].0));
+            }
+            v.extend(judge_exit0_tree(w, scen, ex, &exp, Level::Content));
+            if !exit0(ex) && !ex.res.outcome.is_hang() {
+                v.push(format!("--reflink=never: valid copy ends with {}", ex.res.outcome.short()));
+            }
+        }
+        "always" => {
+            let all_ok = files.iter().all(|f| clones.iter().any(|(d, r, _)| d == f && *r == 0));
+            if exit0(ex) {
+                if !all_ok {
+                    v.push("--reflink=always exits 0 although not every regular file was produced by a successful clone".into());
+                }
+                for f in &files {
+                    if !data_moves(f).is_empty() {
+                        v.push(format!("--reflink=always: data was copied into {} by ordinary calls", f));
+                    }
+                }
+                v.extend(judge_exit0_tree(w, scen, ex, &exp, Level::Content));
+            } else if all_ok && !files.is_empty() && clones.iter().all(|c| c.1 == 0) && !ex.res.outcome.is_hang() {
+                v.push(format!("--reflink=always: every clone succeeded but the run ends with {}", ex.res.outcome.short()));
+            }
+            if clones.iter().any(|c| c.1 != 0) && exit0(ex) {
+                v.push("--reflink=always exits 0 although a clone request failed".into());
+            }
+        }
+        _ => {
+            // auto
+            for f in &files {
+                let dm = data_moves(f);
+                let cl: Vec<&(String, i64, usize)> = clones.iter().filter(|c| &c.0 == f).collect();
+                if exit0(ex) && cl.is_empty() {
+                    v.push(format!("--reflink=auto: no clone attempt for {}", f));
+                }
+                if let (Some(c), Some(first)) = (cl.first(), dm.first()) {
+                    if *first < c.2 {
+                        v.push(format!("--reflink=auto: data written to {} before the clone attempt", f));
+                    }
+                    if c.1 == 0 {
+                        v.push(format!("--reflink=auto: clone of {} succeeded but data was copied as well", f));
+                    }
+                }
+            }
+            v.extend(judge_exit0_tree(w, scen, ex, &exp, Level::Content));
+            let hard = clones.iter().any(|c| c.1 != 0 && !unsupported(-c.1));
+            if !exit0(ex) && !hard && !ex.res.outcome.is_hang() {
+                v.push(format!("--reflink=auto: cloning merely unsupported/successful but the run ends with {}", ex.res.outcome.short()));
+            }
+        }
+    }
+    v.truncate(8);
+    simple_judge(v, ex, !clones.is_empty() || mode == "never")
+}
+
+pub fn jobs(quick: bool) -> Vec<(Arc<Scenario>, RunSpec, usize)> {
+    use libc::*;
+    let answers: Vec<Option<Action>> = vec![None, Some(Action::Errno(EOPNOTSUPP)), Some(Action::Errno(EINVAL)), Some(Action::Errno(EXDEV)), Some(Action::Errno(EIO)), Some(Action::Errno(EPERM)), Some(Action::EmulateOk)];
+    let trees: Vec<(&str, Vec<Entry>)> = vec![
+        ("one", vec![Entry::dir("src"), Entry::file("src/a", "0123456789")]),
+        ("two", vec![Entry::dir("src"), Entry::file("src/a", "0123456789"), Entry::file("src/b", "abcdef")]),
+        ("two-one-empty", vec![Entry::dir("src"), Entry::file("src/a", "0123456789"), Entry::file("src/e", "")]),
+        ("overwrite", vec![Entry::dir("src"), Entry::file("src/a", "0123456789"), Entry::dir("dst"), Entry::file("dst/a", "previous longer content")]),
+    ];
+    let mut out = vec![];
+    for d in drivers() {
+        for mode in ["never", "auto", "always"] {
+            for (tn, tree) in &trees {
+                let args: Vec<&str> = if *tn == "overwrite" { vec!["-r", "-T", "--reflink", mode, "--driver", d, "-w", "2", "--block-size", "4", "src", "dst"] } else { vec!["-r", "--reflink", mode, "--driver", d, "-w", "2", "--block-size", "4", "src", "dst"] };
+                let s = Arc::new(Scenario::new(&format!("reflink-{}-{}-{}", mode, tn, d), tree.clone(), &args));
+                let nfiles = tree.iter().filter(|e| e.path.starts_with("src/")).count();
+                for a1 in &answers {
+                    let seconds: Vec<&Option<Action>> = if nfiles > 1 { answers.iter().collect() } else { vec![&None] };
+                    for a2 in seconds {
+                        for pol in if quick { vec![Policy::P0] } else { vec![Policy::P0, Policy::P1] } {
+                            let mut sp = RunSpec::base(pol);
+                            if let Some(a) = a1 {
+                                sp.faults.push(Fault { call: "ioctl:FICLONE".into(), thread: None, nth: Some(1), path_contains: None, action: a.clone() });
+                            }
+                            if let Some(a) = a2 {
+                                sp.faults.push(Fault { call: "ioctl:FICLONE".into(), thread: None, nth: Some(2), path_contains: None, action: a.clone() });
+                            }
+                            out.push((s.clone(), sp, if quick { 0 } else { 1 }));
+                        }
+                    }
+                }
+            }
+        }
+    }
+    out
+}
+
+pub fn run(ctx: &Ctx) -> Report {
+    let mut rep = Report::new(
+        "fault_enumeration",
+        "trees of one or two files (one empty, one overwriting) x both drivers x reflink {never, auto, always} x every vector of answers to the FICLONE calls drawn from {real file system (unsupported here), EOPNOTSUPP, EINVAL, EXDEV, EIO, EPERM, success emulated by the supervisor}; oracle on the system-call trace: never => no clone request; always => exit 0 iff every file was produced by a successful clone, and then no data-moving call on it; auto => the clone attempt precedes any data write, unsupported => byte-exact copy and exit 0, success => no copy calls; non-trivial = a clone request was answered (or never-mode), per distinct trace",
+    );
+    let j: Judge = &judge;
+    let jb = jobs(ctx.quick());
+    let n = jb.len();
+    let st = explore(&ctx.pool, jb, j);
+    rep.part("answer vectors x modes x trees", st, serde_json::json!({"base_jobs": n, "answers": 7}));
+    rep.assumptions = vec!["no reflink-capable file system exists in the sandbox: clone success is emulated by the supervisor (it makes the destination's bytes equal to the source's and answers 0)".into()];
+    rep
 }
